@@ -55,6 +55,8 @@ type ReplayFile struct {
 	Detail    string                 `json:"detail"`
 	Tapes     Tapes                  `json:"tapes"`
 	Minimised bool                   `json:"minimised"`
+	// Regenerate: no tapes recorded (the run never ended: watchdog); replay draws them again from seed and index.
+	Regenerate bool                  `json:"regenerate,omitempty"`
 	RunHash   string                 `json:"run_hash"`
 	Config    map[string]interface{} `json:"config"`
 	Events    []string               `json:"events"`
@@ -215,7 +217,11 @@ func TestWorker(t *testing.T) {
 			fmt.Fprintln(os.Stderr, err)
 			os.Exit(2)
 		}
-		r := RunOne(t, prop, rf.Seed, rf.Index, rf.Tier, &rf.Tapes, os.Getenv("VERIF_TRACE") != "")
+		tapes := &rf.Tapes
+		if rf.Regenerate {
+			tapes = nil
+		}
+		r := RunOne(t, prop, rf.Seed, rf.Index, rf.Tier, tapes, os.Getenv("VERIF_TRACE") != "")
 		out := map[string]interface{}{"violations": r.Viol, "reproduced": hasViol(r, rf.Class, rf.Key) != nil, "run_hash": fmt.Sprintf("%016x", r.Hash),
 			"abort": r.Abort, "panics": r.Panics, "events": r.Events, "inconclusive": r.Inconclusive}
 		jb, _ := json.MarshalIndent(out, "", " ")
